@@ -17,6 +17,7 @@ RULE = (
     "generator's own log-return. Every accepted order is compared with the snapshot of what its agent returned. "
     "Case = one run; distinct = (seed, shock table); non-trivial = a shock was due and applied or an order was "
     "replaced."
+    ' Since the seeded rounds: other events with always-on hooks of every kind share 40% of the runs (a non-binding price limit rule, a watching probe), built-in events set up twice (refused first attempt, then corrected settings), explicit empty event lists; a zero-volatility market is judged by the closed form when no log-return was observed at the generator.'
 )
 ASSUMPTIONS = [
     "requested-versus-accepted price equality is up to tick rounding in the non-aggressive direction (C19)",
